@@ -225,7 +225,8 @@ def run_one(prop, mode, base, run_index, refs):
                 if v2:
                     for v in v2:
                         v.update({'mode': mode, 'run_index': run_index, 'seed': seed, 'plan': plan,
-                                  'schedule': res2['sched']['segments'], 'via': 'directed'})
+                                  'schedule': res2['sched']['segments'], 'via': 'directed',
+                                  'sched_spec': spec})
                     violations = v2
                     break
         except ForkTimeout as e:
